@@ -1,13 +1,15 @@
 package main
 
 import (
-	"time"
+	"bytes"
+	"encoding/binary"
 	"encoding/json"
 	"fmt"
 	"os"
 	"regexp"
 	"strconv"
 	"strings"
+	"time"
 )
 
 func init() { register("C12", runC12) }
@@ -25,6 +27,135 @@ func runC12(c *Ctx) {
 		c12Labels(c, h)
 		c12Repositioned(c, h)
 		c12Structural(c, h)
+		c12IngestPaths(c, h)
+	}
+}
+
+// c12IngestPaths: labels enter a label volume through real ingest and proofreading requests (raw voxel writes,
+// supervoxel splits with caller-chosen split and remainder ids in either order, renumbering to a caller-chosen
+// label), with restarts in between; after each of them a newly allocated label must be greater than every label
+// present in the volume.
+func c12IngestPaths(c *Ctx, h int) {
+	r := c.Rng.Fork()
+	dir := scratchDir("c12i")
+	defer os.RemoveAll(dir)
+	ch := mustChild(c, dir, nil)
+	if ch == nil {
+		return
+	}
+	defer func() {
+		if ch != nil {
+			ch.Kill()
+		}
+	}()
+	resp, _ := ch.HTTP("POST", "repos", []byte(`{"alias":"i","description":"d"}`))
+	uuid := jsonField(resp.Body, "root")
+	if resp, _ := ch.HTTP("POST", "repo/"+uuid+"/instance", []byte(`{"typename":"labelmap","dataname":"lm","BlockSize":"32,32,32"}`)); !resp.OK() {
+		c.Report("H", "C12 labelmap-create", resp.String(), "")
+		return
+	}
+	var hist []string
+	present := uint64(0)
+	note := func(l uint64) {
+		if l > present {
+			present = l
+		}
+	}
+	alloc := func(after string) bool {
+		resp, ok := ch.HTTP("POST", "node/"+uuid+"/lm/nextlabel/1", nil)
+		if !ok || !resp.OK() {
+			c.Report("O", "C12 nextlabel-failed", "a next-label request failed", resp.String()+"\n"+strings.Join(hist, "\n"))
+			return false
+		}
+		m := reStartEnd.FindStringSubmatch(string(resp.Body))
+		if m == nil {
+			return false
+		}
+		b, _ := strconv.ParseUint(m[1], 10, 64)
+		hist = append(hist, fmt.Sprintf("nextlabel/1 -> %d", b))
+		c.Eval("ingest-path "+after, true)
+		c.Count("ingest-path." + strings.Fields(after)[0])
+		if b <= present {
+			c.Report("O", "C12 newlabel-not-above-present", "a newly allocated label is not greater than a label already present in the volume",
+				fmt.Sprintf("after %s: allocated %d but label %d is present in the volume\nhistory:\n  %s", after, b, present, strings.Join(hist, "\n  ")))
+			return false
+		}
+		note(b)
+		return true
+	}
+	writeBlock := func(bx int, label uint64) bool {
+		blk := make([]byte, 32*32*32*8)
+		for i := 0; i < 32*32*32; i++ {
+			binary.LittleEndian.PutUint64(blk[i*8:], label)
+		}
+		resp, _ := ch.HTTP("POST", fmt.Sprintf("node/%s/lm/raw/0_1_2/32_32_32/%d_0_0", uuid, 32*bx), blk)
+		hist = append(hist, fmt.Sprintf("POST raw block (%d,0,0) all label %d -> %d", bx, label, resp.Code))
+		ch.AskT("SETTLE "+uuid+" lm", 20*time.Second)
+		if resp.OK() {
+			note(label)
+		}
+		return resp.OK()
+	}
+	nblk := 0
+	for round := 0; round < 4; round++ {
+		a := present + 100 + uint64(r.Intn(1000))
+		if !writeBlock(nblk, a) || !alloc("raw write") {
+			return
+		}
+		// split supervoxel a with caller-chosen ids, the remainder id above or below the split id
+		s1 := present + 50 + uint64(r.Intn(500))
+		s2 := s1 + 1 + uint64(r.Intn(60))
+		splitID, remainID := s1, s2
+		if round%2 == 1 {
+			splitID, remainID = s2, s1
+		}
+		var buf bytes.Buffer
+		buf.Write([]byte{0, 3, 0, 0})
+		binary.Write(&buf, binary.LittleEndian, uint32(0))
+		binary.Write(&buf, binary.LittleEndian, uint32(32*8))
+		for z := 0; z < 8; z++ {
+			for y := 0; y < 32; y++ {
+				binary.Write(&buf, binary.LittleEndian, [4]int32{int32(32 * nblk), int32(y), int32(z), 16})
+			}
+		}
+		resp, _ := ch.HTTP("POST", fmt.Sprintf("node/%s/lm/split-supervoxel/%d?split=%d&remain=%d", uuid, a, splitID, remainID), buf.Bytes())
+		hist = append(hist, fmt.Sprintf("split-supervoxel/%d?split=%d&remain=%d -> %d %s", a, splitID, remainID, resp.Code, trunc(string(resp.Body))))
+		ch.AskT("SETTLE "+uuid+" lm", 20*time.Second)
+		if resp.OK() {
+			note(splitID)
+			note(remainID)
+			if !alloc("split-supervoxel with explicit ids") {
+				return
+			}
+		}
+		// renumber the body to a caller-chosen label
+		nl := present + 10 + uint64(r.Intn(300))
+		body, _ := json.Marshal([]uint64{nl, a})
+		resp, _ = ch.HTTP("POST", "node/"+uuid+"/lm/renumber", body)
+		hist = append(hist, fmt.Sprintf("renumber %d -> %d: %d", a, nl, resp.Code))
+		ch.AskT("SETTLE "+uuid+" lm", 20*time.Second)
+		if resp.OK() {
+			note(nl)
+			if !alloc("renumber") {
+				return
+			}
+		}
+		nblk++
+		if round%2 == 0 {
+			how := "SHUTDOWN"
+			if r.Bool() {
+				how = "EXIT"
+			}
+			ch.Stop(how)
+			ch = mustChild(c, dir, nil)
+			if ch == nil {
+				return
+			}
+			hist = append(hist, "restart ("+how+")")
+			if !alloc("restart") {
+				return
+			}
+		}
 	}
 }
 
